@@ -69,6 +69,8 @@ def merge(cond, a, b):
     if is_z3(a) or is_z3(b) or isinstance(a, (bool, int)) and isinstance(b, (bool, int)):
         if not is_z3(a) and not is_z3(b) and a == b and type(a) is type(b):
             return a
+        if (isinstance(a, tuple) or isinstance(b, tuple)):
+            raise Unsupported("merge of tuple and term")
         za, zb = lift(a, b)
         if za.eq(zb):
             return za
@@ -99,6 +101,8 @@ def lift(a, b):
             if is_z3(other) and other.sort() == V:
                 return vint_(x)
             return z3.IntVal(x)
+        if isinstance(x, str) or x is None:
+            return to_v(None, x)
         raise Unsupported(f"cannot lift {x!r}")
     za, zb = z(a, b), z(b, a)
     if za.sort() != zb.sort():
